@@ -197,6 +197,8 @@ def stmt(draw, depth, ctx):
             e = draw(iexpr(1))           # float op= int: the promotion path
         else:
             e = draw(expr_of(T, min(depth, 2), ctx["helpers"]))
+        if T == "A" and op == "=":
+            e = ["bin", "A", "+", e, lit("A", [])]    # arrays are shared by reference: keep the read-only inputs unaliased
         return ["assign", target, op, e]
     if k == 4:
         tk = draw(st.integers(0, 3))
@@ -557,6 +559,9 @@ def macro_body(x):
 # ------------------------------------------------------------------ oracle
 def err_class(msg):
     m = msg.lower()
+    if ("too long evaluation" in m or "too deep recursion" in m or "stack overflow" in m or "too large" in m or "too long" in m
+            or "maximum array size" in m or "out of memory" in m or "illegal array size" in m):
+        return "limit"
     if "division by" in m:
         return "div0"
     if "modul" in m:
@@ -629,7 +634,7 @@ _workers = {}
 def get_worker(ctx):
     w = _workers.get(ctx.rundir)
     if w is None:
-        w = Worker(ctx.scratch("w"), timeout=10, conf={"MaxLocalVariables": "120"})
+        w = Worker(ctx.scratch("w"), timeout=10, conf={"MaxLocalVariables": "120", "MaxEvaluationCost": "5000000"})
         _workers[ctx.rundir] = w
     return w
 
@@ -698,6 +703,11 @@ def evaluate_case(ctx, w, p):
             outs[vn] = ("err", err_class(r.get("msg", "")))
         else:
             outs[vn] = (r["st"], None)
+    if any(o == ("err", "limit") for o in outs.values()):
+        # a configured resource limit (evaluation cost, sizes) struck in some spelling: spellings differ in instruction
+        # counts, so this is not a semantic disagreement; limits are C04's subject
+        ctx.excluded["resource-limit-hit"] += 1
+        return None, None
     base = outs["base"]
     # Oracle B: sibling spellings agree
     for vn, o in outs.items():
@@ -706,7 +716,7 @@ def evaluate_case(ctx, w, p):
             continue
         if o != base:
             return ("sibling-disagree:base-vs-%s" % vn + ":" + disagreement_atoms(p, vn),
-                    "base = %r\n%s = %r\n\n%s" % (base, vn, o, src)), outs
+                    "first difference base vs %s: %s\n\n%s" % (vn, first_diff(base, o), src)), outs
     # Oracle A: reference
     ref = reference(p)
     if ref[0] == "unspecified":
@@ -716,8 +726,29 @@ def evaluate_case(ctx, w, p):
         ctx.classes["error-class-differs-from-reference(evaluation order)"] += 1
         return None, outs
     if ref != base:
-        return ("reference-disagree:" + ref_atoms(p, ref, base), "reference = %r\nimplementation (base) = %r\n\n%s" % (ref, base, src)), outs
+        return ("reference-disagree:" + ref_atoms(p, ref, base), "first difference reference vs implementation (base): %s\n\n%s" % (first_diff(ref, base), src)), outs
     return None, outs
+
+
+def first_diff(a, b, path="$"):
+    """first position where two canonical outcomes differ, abbreviated"""
+    if type(a) != type(b):
+        return "%s: %.200r vs %.200r" % (path, a, b)
+    if path == "$" and isinstance(a, tuple) and a[0] != b[0]:
+        return "outcome kinds differ: %.160r vs %.160r" % (a, b)
+    if isinstance(a, tuple) and len(a) == 2 and isinstance(a[1], list) and isinstance(b[1], list) and a[0] == b[0]:
+        if len(a[1]) != len(b[1]):
+            return "%s: sizes %d vs %d (%.120r ... vs %.120r ...)" % (path, len(a[1]), len(b[1]), a[1][:12], b[1][:12])
+        for i, (x, y) in enumerate(zip(a[1], b[1])):
+            if x != y:
+                return first_diff(x, y, "%s[%d]" % (path, i))
+        return None
+    if isinstance(a, tuple) and len(a) == len(b):
+        for i, (x, y) in enumerate(zip(a, b)):
+            if x != y:
+                return first_diff(x, y, "%s.%d" % (path, i))
+        return None
+    return None if a == b else "%s: %.200r vs %.200r" % (path, a, b)
 
 
 def disagreement_atoms(p, vn):
